@@ -111,6 +111,65 @@ def _unit_functional(part, z):
 SOFT = []  # names of cases whose delta coefficient is outside the pointwise method (per process)
 
 
+NON_LIMIT_PATHS = [0]
+
+
+def _limit_path_guard(sy, pre):
+    """The statement is a limit eps -> 0+ at fixed z, x: an execution path is part of it only if its
+    path condition holds for all sufficiently small eps.  A branch of the code under analysis taken on
+    a comparison that involves eps (e.g. a cut-off 'eta <= 1e8' with eta ~ 1/eps) is EVENTUALLY false:
+    such a path is dropped (counted), its sibling is the limit path.  Decided by evaluating every
+    eps-dependent literal of the path condition at eps = 1e-30 and 1e-45 on 40 sample points that
+    satisfy the precondition; a literal that is neither always true nor always false there leaves the
+    case undecided."""
+    import math
+    import random
+
+    from pvc import sym
+    from pvc.numeval import evalb
+    from pvc.sym import free_vars, Infeasible
+
+    ctx = sym.CTX
+    if ctx is None or sy.is_numeric:
+        return
+    lits = [l for l in ctx.pc if not isinstance(l, bool) and any(repr(v) == repr(sy.eps) for v in free_vars(l))]
+    if not lits:
+        return
+    rnd = random.Random(11)
+    for lit in lits:
+        vs = set(free_vars(lit))
+        for c in pre:
+            if not isinstance(c, bool):
+                vs |= free_vars(c)
+        verdicts = set()
+        n = 0
+        for _ in range(4000):
+            if n >= 40:
+                break
+            env = {}
+            for v in vs:
+                nm = v.args[0] if v.op == "v" else repr(v)
+                env[nm] = rnd.uniform(0.02, 0.98) if nm in ("z", "x") else math.exp(rnd.uniform(-1, 7))
+            ok = True
+            for e in (1e-30, 1e-45):
+                env["eps"] = e
+                try:
+                    if not all(evalb(c, env) for c in pre if not isinstance(c, bool)):
+                        ok = False
+                        break
+                    verdicts.add(bool(evalb(lit, env)))
+                except Exception:  # noqa
+                    ok = False
+                    break
+            if ok:
+                n += 1
+        if verdicts == {False}:
+            NON_LIMIT_PATHS[0] += 1
+            raise Infeasible()
+        if verdicts != {True}:
+            raise OutOfReach(f"path condition literal neither eventually true nor eventually false as eps -> 0: {sym.showb(lit)[:200]}")
+
+
 def _compare(sy, hs, as_, pre, tag=""):
     """Obligation triples: the two weighted kernel sums are the same distribution in the limit.
 
@@ -128,6 +187,7 @@ def _compare(sy, hs, as_, pre, tag=""):
     from pvc.limit import subst
     from pvc.ratfun import Normaliser
 
+    _limit_path_guard(sy, pre)
     # native replay: the in-repo CC closed forms keep ~1e-7 at Q2/m2 = 1e9, where the genuine
     # O(eps log^2 eps) remainder is 4e-7: a relative 5e-6 decides; NC (LeProHQ, massive NC intrinsic
     # with its cancellations) is replayed at 1e8 with 2e-4
@@ -323,7 +383,10 @@ def _intrinsic_worker(sub, item):
     case = intrinsic_case(*item)
     sub.check(f"C08/intrinsic/{process}/{kind}/ihq={ihq}/order={order}", case, sy, _pre(sy, "CC"), tol=TAU)
     _soft_standin(sub, f"C08/intrinsic/{process}/{kind}/ihq={ihq}/order={order}", case, sy)
+    _native_fallback(sub, f"C08/intrinsic/{process}/{kind}/ihq={ihq}/order={order}", case, sy)
     sub.extra["limit_selfchecks"] = sub.extra.get("limit_selfchecks", 0) + SELFCHECKS[0]
+    sub.extra["paths_dropped_as_eventually_false_when_eps_to_0"] = sub.extra.get("paths_dropped_as_eventually_false_when_eps_to_0", 0) + NON_LIMIT_PATHS[0]
+    NON_LIMIT_PATHS[0] = 0
     SELFCHECKS[0] = 0
 
 
@@ -360,6 +423,51 @@ def _soft_standin(sub, name, case, sy):
     o = Ob(f"{name}/delta-coefficient[bounded: T[1_[z,1]] at eps=1e-4,1e-5; z=0.2,0.55,0.9]", "bounded", PROVED if (n and not bad) else "refuted" if bad else UNDECIDED, "native", 0, f"{n} comparisons; cases outside the pointwise method: {soft}" + (f"; |difference| at eps=1e-4, 1e-5: {bad[:3]}" if bad else ""), {} if not bad else {"z": bad[0][0], "difference_eps_1e-4": bad[0][2], "difference_eps_1e-5": bad[0][3]}, {"confirmed": True} if bad else {})
     o.bounded = True
     sub.add(o)
+
+
+def _native_fallback(sub, name, case, sy):
+    """When the limit engine's self-check refuses a case (the symbolic limit form and the term itself
+    disagree at eps = 1e-9 -- e.g. because the code under analysis now cuts a variable off at a constant,
+    so that there IS no limit of the expected form), the case is undecided for the engine.  It is then
+    looked at natively: the real massive and asymptotic kernels with floats at Q2/m2 = 1e6 and 1e8,
+    z in {0.01, 0.1, 0.5}.  Not approaching each other there (relative difference above 1e-2 at 1e8 and
+    not halved from 1e6) is a violation with a failing input on the real code (bounded); approaching
+    each other leaves the case undecided."""
+    global EPS_NATIVE
+    und = [o for o in sub.obs if o.name.startswith(name) and o.status == UNDECIDED and "LimitSelfCheckError" in (o.detail or "")]
+    if not und or sub.replay_target is not None:
+        return
+    keep = EPS_NATIVE
+    keep_over = EPS_NATIVE_OVERRIDE[0]
+    bad, n = [], 0
+    try:
+        for zval in (0.01, 0.1, 0.5):
+            diffs = {}
+            for eps in (1e-6, 1e-8):
+                EPS_NATIVE = eps
+                try:
+                    res = case(sy.numeric({"z": zval, "x": 0.1, "Q2": 30.0}))  # (CC cases pin Q2/m2 = 1e9 themselves)
+                except Exception:  # noqa
+                    continue
+                for nm, got, exp, *_ in res:
+                    try:
+                        g, e = float(got), float(exp)
+                    except Exception:  # noqa
+                        continue
+                    if np.isfinite(g) and np.isfinite(e):
+                        diffs.setdefault(nm, {})[eps] = abs(g - e) / max(1.0, abs(g), abs(e))
+            for nm, d in diffs.items():
+                if len(d) == 2:
+                    n += 1
+                    if d[1e-8] > 1e-2 and d[1e-8] > 0.5 * d[1e-6]:
+                        bad.append((zval, nm, d[1e-6], d[1e-8]))
+    finally:
+        EPS_NATIVE = keep
+        EPS_NATIVE_OVERRIDE[0] = keep_over
+    if bad:
+        o = Ob(f"{name}/massive->asymptotic natively[bounded: Q2/m2=1e6,1e8; z=0.01,0.1,0.5; after the limit engine refused the case]", "bounded", "refuted", "native", 0, f"{n} comparisons; relative differences at Q2/m2 = 1e6, 1e8: {bad[:3]}", {"z": bad[0][0], "x": 0.1, "Q2": 30.0, "quantity": bad[0][1], "relative_difference_at_Q2/m2=1e6": bad[0][2], "relative_difference_at_Q2/m2=1e8": bad[0][3]}, {"confirmed": True, "cmd": "./check C08 --only heavy"})
+        o.bounded = True
+        sub.add(o)
 
 
 def sec_intrinsic(rep, tier):
@@ -409,7 +517,10 @@ def _heavy_worker(sub, item):
     case = heavy_case(*item)
     sub.check(f"C08/heavy/{process}/{kind}/ihq={ihq}/order={order}", case, sy, _pre(sy, process), tol=TAU)
     _soft_standin(sub, f"C08/heavy/{process}/{kind}/ihq={ihq}/order={order}", case, sy)
+    _native_fallback(sub, f"C08/heavy/{process}/{kind}/ihq={ihq}/order={order}", case, sy)
     sub.extra["limit_selfchecks"] = sub.extra.get("limit_selfchecks", 0) + SELFCHECKS[0]
+    sub.extra["paths_dropped_as_eventually_false_when_eps_to_0"] = sub.extra.get("paths_dropped_as_eventually_false_when_eps_to_0", 0) + NON_LIMIT_PATHS[0]
+    NON_LIMIT_PATHS[0] = 0
     SELFCHECKS[0] = 0
 
 
@@ -485,7 +596,10 @@ def _nnlo_worker(sub, item):
     del SOFT[:]
     case, pre = nnlo_case(*item)
     sub.check(f"C08/heavy/NC/{kind}/ihq={ihq}/order=2/{channel}[beyond the LeProHQ grids]", case, sy, pre(sy), tol=TAU, timeout_ms=20000)
+    _native_fallback(sub, f"C08/heavy/NC/{kind}/ihq={ihq}/order=2/{channel}[beyond the LeProHQ grids]", case, sy)
     sub.extra["limit_selfchecks"] = sub.extra.get("limit_selfchecks", 0) + SELFCHECKS[0]
+    sub.extra["paths_dropped_as_eventually_false_when_eps_to_0"] = sub.extra.get("paths_dropped_as_eventually_false_when_eps_to_0", 0) + NON_LIMIT_PATHS[0]
+    NON_LIMIT_PATHS[0] = 0
     SELFCHECKS[0] = 0
 
 
@@ -701,4 +815,6 @@ def run(rep, tier, seed, only=None):
         "A-LeProHQ-grid: at O(a_s^2) the massive NC coefficients are numerical tables (LeProHQ bulk grids, Adler spline): no contract can relate them to the asymptotic formulas -- NOT covered",
         "LeProHQ.cg0 is executed from its Python source with the JIT disabled (same source numba compiles; C18 covers the compiled/interpreted agreement only for yadism's own kernels)",
         "weights are the uninterpreted contract values w(|pid|, type) of get_weight (C02)",
+        "limit paths: a branch of the code under analysis on a comparison that involves eps belongs to the limit only if its condition holds for all small eps; decided by evaluating the eps-dependent literals of the path condition at eps = 1e-30 and 1e-45 on 40 admissible sample points (sampled, not proved; mixed verdicts leave the case undecided; the number of dropped paths is reported)",
+        "a case the limit engine refuses (self-check disagreement) is looked at natively at Q2/m2 = 1e6, 1e8 (bounded): a violation only with a failing float input on the real code, otherwise undecided",
     )
